@@ -2,6 +2,7 @@ package props
 
 import (
 	"fmt"
+	"strings"
 
 	"verifharness/core"
 	"verifharness/mon"
@@ -44,9 +45,43 @@ func (c02) ExhaustiveNote(tier string) (bool, string) {
 	return false, "enumerated completely: 64 digraphs on 3 nodes x 6 rank assignments x 5 edge kinds; digraphs on 4 nodes and the rest are sampled"
 }
 
+// ppCycle: a post-processor that is itself a component sits on a circular reference with ordinary
+// components: every required point on the cycle is populated by its target, on both sides.
+func (p c02) ppCycle(c *core.Ctx) {
+	g := world.NewG(c.Rng)
+	tgt := g.AddNode([]int{0, 1, 3}[c.Rng.Intn(3)], "np-target")
+	req := g.AddNode([]int{0, 1, 3}[c.Rng.Intn(3)], "np-req")
+	mid := g.AddRandomNode(plainAB, 0)
+	// np-target -> mid -> the post-processor -> np-target ; np-req -> the post-processor -> np-req
+	g.EdgeByName(tgt, mid, "")
+	g.SetTag(mid, "Any1", "wire", "verif.namepp")
+	g.SetTag(req, "Any1", "wire", "verif.namepp")
+	g.ShuffleOrders()
+	pp := &world.NamePP{}
+	r := world.Start(g.Sc, world.Options{Extra: []any{pp}})
+	c.Count("starts", 1)
+	c.Count("post_processor_cycle_starts", 1)
+	detail := failDetail(g.Sc, r, nil)
+	if r.Outcome() != "ok" {
+		c.Fail("", "circular reference through a post-processor component did not start: "+core.Short(r.OutcomeDetail(), 300), detail)
+		return
+	}
+	if pp.One != any(r.Nodes[tgt]) || pp.Req != any(r.Nodes[req]) || r.Nodes[mid].Slot().Any1 != any(pp) || r.Nodes[req].Slot().Any1 != any(pp) {
+		c.Fail("", fmt.Sprintf("circular reference through a post-processor component: post-processor.One=%p (np-target %p) .Req=%p (np-req %p); mid.Any1=%p np-req.Any1=%p (post-processor %p)",
+			pp.One, r.Nodes[tgt], pp.Req, r.Nodes[req], r.Nodes[mid].Slot().Any1, r.Nodes[req].Slot().Any1, pp), detail)
+		return
+	}
+	c.Nontrivial("ppcycle|" + g.Sc.GraphSig())
+}
+
 func (p c02) Run(c *core.Ctx) {
+	if c.Index >= p.enumCount(c.Tier) && c.Index%40 == 17 { // (the enumerated part stays complete)
+		p.ppCycle(c)
+		return
+	}
 	transientFaults := false
 	selfLookups := 0
+	placeholderNames := 0
 	var extra []any
 	var sc *world.Scenario
 	part := "random"
@@ -83,6 +118,19 @@ func (p c02) Run(c *core.Ctx) {
 			ByTypeSlice: 0.15, QualSlice: 0.2, ByTypeUniq: 0.15, PUnnamed: 0.2})
 		if c.Index%3 == 0 {
 			addSelfCandidatePoints(c, sc)
+		}
+		if c.Index%5 == 3 {
+			// some by-name edges take the name from configuration: a placeholder whose key is not configured
+			// and whose default is the target's name
+			for i := range sc.Nodes {
+				for slot, ts := range sc.Nodes[i].Tags {
+					name := strings.SplitN(ts.Val, ",", 2)[0]
+					if _, isNode := nodeNamed(sc, name); ts.Tag == "wire" && name != "" && isNode && c.Rng.Intn(3) == 0 {
+						sc.Nodes[i].Tags[slot] = world.TagSpec{Tag: "wire", Val: "${nosuchkey.n" + fmt.Sprint(i) + ":" + name + "}" + strings.TrimPrefix(ts.Val, name)}
+						placeholderNames++
+					}
+				}
+			}
 		}
 		if c.Index%2 == 0 {
 			// cycle members that also carry configuration tags (several scanners contribute to one definition)
@@ -216,6 +264,7 @@ func (p c02) Run(c *core.Ctx) {
 	}
 	c.Distinct("creation_traces", mon.ShapeHash(r.Tracer.Events()))
 	c.Count("part_"+part, 1)
+	c.Count("by_name_edges_named_through_a_placeholder", placeholderNames)
 	c.Count("components_looking_themselves_or_their_holders_up_in_every_init", selfLookups)
 	c.Count("outcome_"+r.Outcome(), 1)
 	if len(problems) > 0 {
